@@ -534,7 +534,9 @@ class Plucker(SMUserList):
         equivalent even if their coordinate vectors are different.
         """
         l1 = self
-        return abs( 1 - np.dot(base.unitvec(l1.vec), base.unitvec(l2.vec))) < 10*_eps
+        if not isinstance(l2, Plucker):
+            raise TypeError('operands to == are of different types')
+        return l1.binop(l2, lambda x, y: abs( 1 - np.dot(base.unitvec(x), base.unitvec(y))) < 10*_eps, list1=False)
     
     def __ne__(self, l2):  # pylint: disable=no-self-argument
         """
@@ -552,7 +554,9 @@ class Plucker(SMUserList):
         equivalent even if their coordinate vectors are different.
         """
         l1 = self
-        return not l1.__eq__(l2)
+        if not isinstance(l2, Plucker):
+            raise TypeError('operands to != are of different types')
+        return l1.binop(l2, lambda x, y: not (abs( 1 - np.dot(base.unitvec(x), base.unitvec(y))) < 10*_eps), list1=False)
     
     def isparallel(self, l2, tol=10*_eps):  # pylint: disable=no-self-argument
         """
